@@ -1,5 +1,5 @@
 """C12 - all documented ways of setting parameters are equivalent; reset restores all."""
-from sa.rules import params
+from sa.rules import params, exceptions
 
 LEVEL = 'other'
 
@@ -10,6 +10,8 @@ def check(ctx):
     params.reset_fresh(ctx, 'C12-R3')
     params.no_from_import(ctx, 'C12-R4')
     params.yaml_keys(ctx, 'C12-R5')
+    params.set_prms_refusals(ctx, 'C12-R6')
+    exceptions.locals_bound_before_use(ctx, 'C12-R7', scope='params')
     ctx.undecided += ['equality of YAML-loaded values and Python literals of the same spelling',
                       'that ruamel/yaml loaders return equal objects for equal files']
     ctx.assumptions += ['copy.deepcopy returns an object sharing no mutable state with its argument']
